@@ -15,22 +15,33 @@ struct Case {
     std::vector<std::string> tags;
 };
 
-static void gen_run(Rng &r, Case &c, std::vector<av_t> &out, char forced = 0)
+// returns true when an arithmetic run was produced; `from`: start the run at this value
+static bool gen_run(Rng &r, Case &c, std::vector<av_t> &out, char forced = 0, const av_t *from = 0, bool unit = false)
 {
     static const char TYPES[] = "ihcfdsSbmrtTFNI";
-    char t = forced ? forced : TYPES[r.below(15)];
-    int n = r.chance(0.55) ? 1 : (int)r.range(2, 9);
-    bool arith = n >= 2 && strchr("cih", t) && r.chance(0.5);
+    char t = from ? from->type : forced ? forced : TYPES[r.below(15)];
+    int n = unit ? (int)r.range(5, 8) : from ? (int)r.range(2, 9) : r.chance(0.55) ? 1 : (int)r.range(2, 9);
+    bool arith = n >= 2 && strchr("cih", t) && (from || unit || r.chance(0.5));
     if(arith) {
         av_t s = av::mk(t), d = av::mk(t);
         if(t == 'c') { s.val.i = (int32_t)r.range(0x21, 0x60); d.val.i = r.chance(0.5) ? 1 : (int32_t)r.range(1, 3); }
-        else if(t == 'i') { s.val.i = (int32_t)r.range(-50, 50); d.val.i = (int32_t)r.range(-4, 4); if(!d.val.i) d.val.i = r.chance(0.5) ? 1 : -1; }
-        else { s.val.h = r.chance(0.3) ? 4294967290ll : r.range(-50, 50); d.val.h = r.range(-3, 3); if(!d.val.h) d.val.h = 1; }
+        else if(t == 'i') {
+            s.val.i = (int32_t)r.range(-50, 50); d.val.i = (int32_t)r.range(-4, 4); if(!d.val.i) d.val.i = r.chance(0.5) ? 1 : -1;
+            if(r.chance(0.08)) { s.val.i = r.chance(0.5) ? 0 : (int32_t)r.range(-1000, 1000); d.val.i = (int32_t)(r.chance(0.5) ? 1 : -1) * (int32_t)r.range(65536, 400000000); c.tags.push_back("large_step"); count("gen.large_step"); }
+        } else {
+            s.val.h = r.chance(0.3) ? 4294967290ll : r.range(-50, 50); d.val.h = r.range(-3, 3); if(!d.val.h) d.val.h = 1;
+            // steps that do not fit 32 bits
+            if(r.chance(0.15)) { static const int64_t D[] = {2147483648ll, 3000000000ll, 4294967296ll, 4294967297ll, 8589934593ll, 1099511627776ll}; d.val.h = D[r.below(6)] * (r.chance(0.5) ? 1 : -1); if(r.chance(0.5)) s.val.h = 0; c.tags.push_back("large_step"); count("gen.large_step_64bit"); }
+        }
+        if(from) s = *from;
+        if(unit) { if(t == 'h') d.val.h = r.chance(0.5) ? 1 : -1; else d.val.i = (t == 'c' || r.chance(0.5)) ? 1 : -1; if(t == 'c' && s.val.i > 0x70) s.val.i = 0x41; }
         for(int i = 0; i < n; ++i) { av_t v; av::step_value(s, d, i, v); if(t == 'c' && (v.val.i < 0x20 || v.val.i > 0x7e)) break; out.push_back(v); }
+        return true;
     } else {
         av_t v = av::gen_scalar(r, t, c.st);
         for(int i = 0; i < n; ++i) out.push_back(v);
     }
+    return false;
 }
 
 static void gen_case(Rng &r, Case &c)
@@ -55,11 +66,21 @@ static void gen_case(Rng &r, Case &c)
             c.args.push_back(h);
             c.args.insert(c.args.end(), el.begin(), el.end());
             c.tags.push_back(el.empty() ? "empty_array" : "array");
+            // a +-1 progression of the array's type directly behind the array
+            if(!el.empty() && strchr("cih", t) && r.chance(0.35)) { std::vector<av_t> run; gen_run(r, c, run, t, 0, true); c.args.insert(c.args.end(), run.begin(), run.end()); c.tags.push_back("unit_progression_after_array"); count("gen.unit_progression_after_array"); }
         } else {
             std::vector<av_t> run;
-            gen_run(r, c, run);
+            bool arith = gen_run(r, c, run);
+            // a second progression that starts at (or right after) the last value of the first
+            if(arith && run.size() >= 2 && r.chance(0.35)) {
+                av_t from = r.chance(0.25) ? run.front() : run.back();   // ... or at its first value again
+                if(r.chance(0.3)) { av_t one = av::mk(from.type); if(from.type == 'h') one.val.h = 1; else one.val.i = 1; av_t nx; av::step_value(from, one, 1, nx); if(from.type != 'c' || nx.val.i < 0x7f) from = nx; }
+                size_t before = run.size();
+                gen_run(r, c, run, 0, &from, r.chance(0.4));
+                if(run.size() > before) { c.tags.push_back("adjacent_progressions"); count("gen.adjacent_progressions"); if(g == 0) { c.tags.push_back("adjacent_progressions_at_start"); count("gen.adjacent_progressions_at_start"); } }
+            }
             size_t room = 12 > c.args.size() ? 12 - c.args.size() : 0;
-            if(run.size() > room + 6) run.resize(room + 6);
+            if(run.size() > room + 12) run.resize(room + 12);
             c.args.insert(c.args.end(), run.begin(), run.end());
         }
     }
